@@ -250,8 +250,9 @@ func buildHarness(h *Harness) *buildInfo {
 	// 1. instrumented copies of repository files, regenerated from the working tree
 	if len(h.Instr) > 0 {
 		vinstr := buildVinstr()
-		for _, is := range h.Instr {
-			outdir := filepath.Join(hdir, "instr", strings.ReplaceAll(is.Pkg, "/", "_"))
+		for isi, is := range h.Instr {
+			// (several specs may name the same package with different files and rules)
+			outdir := filepath.Join(hdir, "instr", fmt.Sprintf("%d_%s", isi, strings.ReplaceAll(is.Pkg, "/", "_")))
 			os.RemoveAll(outdir)
 			os.MkdirAll(outdir, 0755)
 			args := []string{"-repo", repo, "-pkg", "./" + is.Pkg, "-files", strings.Join(is.Files, ","), "-rules", is.Rules, "-out", outdir, "-modfile", mf}
@@ -273,7 +274,11 @@ func buildHarness(h *Harness) *buildInfo {
 			for k, v := range frag.Replace {
 				overlay[k] = v
 			}
-			report[is.Pkg] = frag.Report
+			if _, dup := report[is.Pkg]; dup {
+				report[fmt.Sprintf("%s (%s)", is.Pkg, strings.Join(is.Files, ","))] = frag.Report
+			} else {
+				report[is.Pkg] = frag.Report
+			}
 		}
 	}
 	// 2. harness files injected into the package directory; upstream tests overlaid away
